@@ -245,6 +245,11 @@ func (f *FBaseProcessorFunction) SendReply(fctx FContext, oprot *FProtocol, meth
 
 func (f *FBaseProcessorFunction) trapError(ctx context.Context, fctx FContext, oprot *FProtocol, method string, err error) error {
 	if IsErrTooLarge(err) {
+		// The reply was abandoned half-way: a stateful protocol (JSON) has to
+		// forget it, or the exception written next is not well-formed.
+		if r, ok := oprot.TProtocol.(interface{ Reset() }); ok {
+			r.Reset()
+		}
 		f.sendError(ctx, fctx, oprot, APPLICATION_EXCEPTION_RESPONSE_TOO_LARGE, method, err.Error())
 		return nil
 	}
